@@ -402,7 +402,7 @@ class Model:
             for n in ast.walk(fn.node):
                 if isinstance(n, ast.Assign) and len(n.targets) == 1 and isinstance(n.targets[0], ast.Name):
                     env[n.targets[0].id] |= self.expr_types(fn, n.value, env)
-                elif isinstance(n, ast.For):
+                elif isinstance(n, (ast.For, ast.comprehension)):
                     ts = self.expr_types(fn, n.iter, env)
                     elem = {t[5:] for t in ts if t.startswith('iter:')}
                     # "for k in self.<dictfield>": keys are untyped; "for name, x in self.<f>.items()"
